@@ -26,7 +26,7 @@ checks = {
    "In every state of the C04 space, before and after an unlock, every secret-requiring operation is tried with ~60 wrong passphrases (must be refused, change nothing, not lock out the right one) and the raw databases, exported keystores and error strings are scanned for every secret the harness derives from the mnemonic.",
    "§5 C05"),
  "C06": (FE, "faultenum", "exhaustive crash-point enumeration (every wallet-database commit of every base history) through a db seam, with real restart and catch-up",
-   "For the shortest history of every state of the C01 space up to the base depth, and of a second space with API operations and background steps (mnemonic import, single rescan batches, removal call and removal run, NewAddress, restart), the process is stopped before each wallet-database commit in turn; the wallet is restarted on the same database through the real start-up path (goroutines until idle), must resume unfinished background work by itself, end with every wallet ready or gone, and report the reference ledger of the node's final chain.",
+   "For the shortest history of every state of the C01 space up to the base depth, and of a second space with API operations and background steps (mnemonic import, single rescan batches, removal call and removal run, NewAddress, restart), the process is stopped before each wallet-database commit in turn; the wallet is restarted on the same database through the real start-up path (goroutines until idle), must resume unfinished background work by itself, end with every wallet ready or gone, and report the reference ledger of the node's final chain. Further passes: the process down while the node mines 2000+ blocks (directed histories, four wallet-id orders), and wallet-database transactions of several thousand records (a block paying 1500 outputs, an import deriving 2100 addresses) with every commit as crash point.",
    "§5 C06"),
  "C07": (MC, "histbfs", "explicit-state BFS over import-call / single-rescan-batch / node-event / delivery / restart histories on the real implementation",
    "Every history of importing a wallet whose history is already on chain (gap limit 3, payments to key-chain indexes 0/2/4), single rescan batches of the real asyncImport with the worker's re-queue decision modelled from their results, blocks paying/spending it, reorganisations, deliveries and a restart up to the stated depth, plus a pass over 1003-block chains (rescan spans batches) and a pass that starts after the first batch of a 1000-block rescan and explores reorganisations reaching below the rescan cursor, and a pass with one height per rescan batch over short chains (events between any two batches); refusal to select/remove while importing; after completion every wallet is ready, every address with history reachable under the gap rule (independent derivation) is held, and the ledger equals the reference ledger.",
@@ -35,13 +35,13 @@ checks = {
    "Every history of two wallets sharing transactions, the removal API call, the background removal run, restarts between them, reorganisations and re-import up to the stated depth, a pass in which the removed wallet holds pending records (unconfirmed deposits and payments), and a pass that stops before every commit inside the removal and restarts through the real start-up path; wrong passphrases are refused, after completion no raw database record mentions the removed wallet's id, script hashes or addresses, and the surviving wallet's ledger equals the reference.",
    "§5 C08"),
  "C09": (MC, "histbfs", "explicit-state BFS over relay/confirm/conflict/reorg histories on the real implementation with a reference pending-set model",
-   "Every history of relayed transactions (wallet spend with one or two wallet inputs, incoming payment, child, conflict, duplicate while still valid), blocks that confirm them or their conflicts, reorganisations and deliveries up to the stated depth runs on the real follower; in every state the wallet's pending buckets, the read-back of each pending entry, the spent_by_unmined flag of every coin and two automatic-selection probes are compared with a reference pending model, together with the C01 ledger oracle.",
+   "Every history of relayed transactions (wallet spend with one or two wallet inputs, incoming payment, child, conflict, duplicate while still valid), blocks that confirm them or their conflicts, reorganisations and deliveries up to the stated depth runs on the real follower; in every state the wallet's pending buckets, the read-back of each pending entry, the spent_by_unmined flag of every coin and two automatic-selection probes are compared with a reference pending model, together with the C01 ledger oracle; a second pass starts from a state with two wallet coins and explores several pending spenders of one coin (two-input spend, conflicting spend of its first input, a conflict confirmed on either input).",
    "§5 C09"),
  "C10": (MC, "histbfs", "explicit-state BFS over staking/binding deposit, withdrawal, pending and reorg histories on the real implementation with a consensus-library lock oracle",
    "Every history of staking/binding deposits (old and new style across the scaled warm-up height), their withdrawals, pending versions and reorganisations up to the stated depth runs on the real follower; in every state both history views, balances/withdrawable classification and the sequence and consensus lock status of wallet-built withdrawals are compared with the reference.",
    "§5 C10"),
  "C11": (MC, "dbmodel", "explicit-state BFS over database operation sequences on the real ldb backend against a nested-map model",
-   "Every sequence of transaction/bucket/key operations within the stated bounds is executed on the real LevelDB backend and after each one (also on transitions into known states) the complete readable content (through the open write transaction and through a fresh read transaction) is compared with a nested-map reference; every fresh database is read back right after its first commit (nothing of another database's transactions may surface); a second pass covers the directory-backed create/open/close path.",
+   "Every sequence of transaction/bucket/key operations within the stated bounds is executed on the real LevelDB backend and after each one (also on transitions into known states) the complete readable content (through the open write transaction and through a fresh read transaction) is compared with a nested-map reference; every fresh database is read back right after its first commit (nothing of another database's transactions may surface); further passes: the directory-backed create/open/close path, transactions of 5000 / 70000 keys, a bucket chain down to depth 12 (two-digit depth prefixes), keys and bucket names that look like the backend's encoded keys, and a read transaction kept open across commits (it must show exactly one committed state).",
    "§5 C11"),
  "C12": (MC, "histbfs", "explicit-state BFS over new-address/payment/reorg/restart histories with restore probes, per gap limit",
    "For gap limits 2,3(,4): every history of address requests of both classes, payments to issued addresses, reorganisations removing payments and restarts up to the stated depth; each NewAddress outcome is compared with the issuing rule and with an independent derivation of the next address; in every state the listings, used flags and the ledger are compared with the reference and three mnemonic restores into a fresh second instance must rediscover every address with best-chain history.",
@@ -50,13 +50,13 @@ checks = {
    "For the shortest history of every state of the C01 space up to the base depth, and of a second space with API operations and background steps (mnemonic import, rescan batches, removal call and run, NewAddress, restart), each fallible wallet-database call in turn (and runs of 2/3 consecutive calls) returns an error; an operation that reported failure is repeated once storage works again (the worker's own re-queueing is modelled from what the step returned); afterwards every wallet must be ready or gone, no phantom wallet or skipped/duplicated address may exist, and all ledger queries must equal the reference ledger.",
    "§5 C18"),
  "C19": (MC, "apienum", "exhaustive product of per-parameter domains for every API method in 9 reachable wallet states, under recover, plus malformed relays",
-   "For each of 23 reachable wallet states and each of the 28 request-taking API methods the full product of small per-field domains (derived from the request type by reflection, largest domains trimmed only above the cap) is executed on the real APIServer over the real wallet under recover() with FATAL trapping, followed by a follower liveness probe; 12 malformed relayed transactions per state go to the follower entry point.",
+   "For each of 24 reachable wallet states (among them: between two rescan batches of an import with a credit already recorded) and each of the 28 request-taking API methods the full product of small per-field domains (derived from the request type by reflection, largest domains trimmed only above the cap) is executed on the real APIServer over the real wallet under recover() with FATAL trapping, followed by a follower liveness probe (imports get a fresh valid mnemonic per call, so every combination of the other parameters meets a wallet that can still be imported; index hints around and far beyond the gap window); in every state 20 block contents the simulator can build and 12 malformed relayed transactions go to the follower entry point, which must survive and apply the next tip.",
    "§5 C19"),
  "C17": (MC, "schedexplore", "exhaustive placement enumeration of follower commits among a query's database reads on the instrumented real code (controlled scheduler + db seam gates) with a sequential-twin oracle; auxiliary free-running -race pass",
    "For 24 scenarios (4 queries x 6 writers; 17 more in the thorough tier) every placement of the follower's 1-4 block commits (connects, pay+spend, reorgs) among the database reads of WalletBalance, AddressBalance, GetUtxo and AutoCreateRawTransaction is executed on the real code; the answer must equal the answer of the same call run alone at a block boundary inside its window. The data-race clause is covered only by a sampling race-detector pass (auxiliary, not exhaustive).",
    "§5 C17"),
  "C20": (MC, "schedexplore", "stateless DFS with iterative preemption bounding over a cooperative controlled scheduler on the instrumented real follower/worker/stop code",
-   "The real NtfnsHandler (handle, worker, suspend/resume, task queue, Stop) is rebuilt with every sync primitive, goroutine start and channel operation routed through a controlled scheduler (source overlay generated from the current tree). For 17 scenarios (import or removal started by an API thread or resumed from a restart, 0-2 tips announced by a node thread, with and without a concurrent stop request; imports of one or of several rescan batches - batch size scaled through a source overlay - and an API thread that submits three more tasks while a multi-batch import is running) every schedule with at most the stated number of preemptions runs to completion on a fresh real wallet; each execution is checked for deadlock, abnormal thread end, livelock, stop returning with the database closed exactly once, and (without stop) for every announced tip processed, every accepted task finished (no wallet left importing or marked for removal) and the ledger equal to the reference.",
+   "The real NtfnsHandler (handle, worker, suspend/resume, task queue, Stop) is rebuilt with every sync primitive, goroutine start and channel operation routed through a controlled scheduler (source overlay generated from the current tree). For 24 scenarios (import or removal started by an API thread or resumed from a restart, 0-2 tips announced by a node thread - the first one paying the wallet being imported -, with and without a concurrent stop request; imports of one or of several rescan batches - batch size scaled through a source overlay -, an API thread that submits three more tasks while a multi-batch import is running, and one storage error reported to the real worker/follower in the middle of their work) every schedule with at most the stated number of preemptions runs to completion on a fresh real wallet; each execution is checked for deadlock, abnormal thread end, livelock, stop returning with the database closed exactly once, and (without stop) for every announced tip processed, every accepted task finished (no wallet left importing or marked for removal) and the ledger equal to the reference.",
    "§5 C20"),
  "C13": (MC, "enum", "bounded-exhaustive input enumeration against an independent BIP-39 reference",
    "Input-bounded model checking: every member of the described entropy / word-sequence families is run through the real mnemonic code and compared with an independent reference validated against BIP-39 vectors.", "§5 C13"),
